@@ -8,7 +8,7 @@ CONSTANTS
  MaxFaults = 3
  MaxSeeks = 1
  Conc = 2
- FixLeak = TRUE
+ FixLeak = FALSE
  PrioAsc = TRUE
  Rs = {3}
  Prios = {0}
